@@ -743,11 +743,11 @@ func runC36(c *core.Ctx) error {
 	all = append(all, mk("random-memory", genOpts{nt: 3, minCmds: 10, maxCmds: 40, big: true}, q(25, 300), 1)...)
 	all = append(all, mk("random-restarts", genOpts{nt: 3, restarts: true, minCmds: 8, maxCmds: 50}, q(60, 600), 1)...)
 	// the bulk: summaries only (full trace when the prefilter has a hint)
-	all = append(all, mk("random", genOpts{nt: 2, minCmds: 5, maxCmds: 80}, q(3500, 60000), 0)...)
-	all = append(all, mk("random", genOpts{nt: 3, minCmds: 5, maxCmds: 90}, q(3500, 60000), 0)...)
-	all = append(all, mk("random-memory", genOpts{nt: 3, minCmds: 10, maxCmds: 90, big: true}, q(1500, 25000), 0)...)
+	all = append(all, mk("random", genOpts{nt: 2, minCmds: 5, maxCmds: 80}, q(2600, 60000), 0)...)
+	all = append(all, mk("random", genOpts{nt: 3, minCmds: 5, maxCmds: 90}, q(2600, 60000), 0)...)
+	all = append(all, mk("random-memory", genOpts{nt: 3, minCmds: 10, maxCmds: 90, big: true}, q(1200, 25000), 0)...)
 	all = append(all, mk("random", genOpts{nt: k.nt, minCmds: 10, maxCmds: 120}, q(500, 15000), 0)...)
-	all = append(all, mk("random-restarts", genOpts{nt: 3, restarts: true, minCmds: 5, maxCmds: 90}, q(3000, 50000), 0)...)
+	all = append(all, mk("random-restarts", genOpts{nt: 3, restarts: true, minCmds: 5, maxCmds: 90}, q(2400, 50000), 0)...)
 
 	segs, err := k.execute(all, c.Pick(4, 8))
 	if err != nil {
@@ -783,7 +783,7 @@ func runC36(c *core.Ctx) error {
 	// ---------------- TLC validates what was recorded ----------------
 	// order: traced first (budget), then summaries
 	sort.SliceStable(segs, func(i, j int) bool { return segs[i].res.Traced && !segs[j].res.Traced })
-	budget := c.Pick(75000, 600000)
+	budget := c.Pick(60000, 600000)
 	var use, hinted []segment
 	total, skipped := 0, 0
 	perHint := map[string]int{}
@@ -811,10 +811,16 @@ func runC36(c *core.Ctx) error {
 	c.Logf("validating %d events of %d scenario records (+%d hinted traces) with TLC", total, len(use), len(hinted))
 	rnd.Shuffle(len(use), func(i, j int) { use[i], use[j] = use[j], use[i] })
 	var vw sync.WaitGroup
-	vw.Add(1)
+	vw.Add(2)
 	go func() {
 		defer vw.Done()
 		k.validateAll(hinted, 1<<30, 1, len(hinted)+1)
+	}()
+	go func() { // binding self-test: corrupted traces must be rejected
+		defer vw.Done()
+		if err := k.selfTest(segs); err != nil {
+			k.fail(err)
+		}
 	}()
 	k.validateAll(use, c.Pick(10000, 40000), c.Pick(8, 10), 6)
 	vw.Wait()
@@ -822,10 +828,6 @@ func runC36(c *core.Ctx) error {
 		return k.failed[0]
 	}
 
-	// ---------------- binding self-test ----------------
-	if err := k.selfTest(segs); err != nil {
-		return err
-	}
 	bg.Wait()
 	if len(k.failed) > 0 {
 		return k.failed[0]
